@@ -5,7 +5,8 @@
     float64: arbitrary functions, so the theorems hold whatever they return. *)
 From Coq Require Import List NArith ZArith Bool String Sorted.
 From Verif Require Import Lib.Utf8 Jsonx.Lex Jsonx.Tok Jsonx.GoStr Jsonx.Parse Jsonx.Json
-  Jsonx.Encode Jsonx.LexProofs Jsonx.ParseProofs Jsonx.Term Jsonx.Balance Jsonx.Seen Jsonx.Pos Jsonx.TermLegacy
+  Jsonx.Encode Jsonx.Script Jsonx.LexProofs Jsonx.ParseProofs Jsonx.Term Jsonx.Balance Jsonx.Seen Jsonx.ScriptProofs
+  Jsonx.Pos Jsonx.TermLegacy
   Jsonx.GenTypes Gen.JsonxConsts Jsonx.ConstsGen.
 Import ListNotations.
 Local Open Scope N_scope.
@@ -105,6 +106,42 @@ Theorem C08_decode_stream_total :
   exists r, decode_all pf ff input = Ok r.
 Proof. exact (fun F pf ff => decode_all_total pf ff). Qed.
 Print Assumptions C08_decode_stream_total.
+
+(** ONE Decoder driven by ANY sequence of calls - More, Decode and
+    DecodeSeries in any order and any number of times, also after calls that
+    returned errors: every call returns (no panic, fuel never exhausted);
+    every Decode hands the caller a value, or between 1 and 20 errors; every
+    DecodeSeries a result without errors, or no result and between 1 and 20
+    errors. *)
+Theorem C08_decoder_any_call_sequence :
+  forall (F : Type) (pf : list N -> option F) (ff : F -> list N) tm input ops,
+  exists l, script pf ff tm input ops = Ok l /\ List.length l = List.length ops /\ Forall sres_seen l.
+Proof. exact (fun F pf ff => script_total_seen pf ff). Qed.
+Print Assumptions C08_decoder_any_call_sequence.
+
+(** ... and a Decoder is not usable after a parse error: once the calls
+    [ops1] have led to a state in which Parser.Errs() is not empty (a Decode
+    returned the parser's errors, or a DecodeSeries failed on them), every
+    later Decode returns errors and every later DecodeSeries fails - nothing
+    in the Decoder ever empties an error list, and the lexer's list only
+    grows. *)
+Theorem C08_decoder_errors_sticky :
+  forall (F : Type) (pf : list N -> option F) (ff : F -> list N) tm input ops1 ops2 raw l1 st1 l2 st2,
+  jsonx_raw_tokens input = Ok raw ->
+  run_script pf ff tm (p_init (parser_stream raw)) ops1 = Some (l1, st1) ->
+  p_errs st1 <> [] ->
+  run_script pf ff tm st1 ops2 = Some (l2, st2) ->
+  script pf ff tm input (ops1 ++ ops2) = Ok (l1 ++ l2)%list /\ Forall sres_failed l2.
+Proof. exact (fun F pf ff => script_errors_sticky pf ff). Qed.
+Print Assumptions C08_decoder_errors_sticky.
+
+(** DecodeSeries as the first call on a new Decoder is the entry point of the
+    theorems above and below. *)
+Theorem C08_series_on_new_decoder :
+  forall (F : Type) (pf : list N -> option F) (ff : F -> list N) tm s,
+  decode_series_stream pf ff tm s = option_map fst (decode_series_from pf ff tm (p_init s)).
+Proof. exact (fun F pf ff => decode_series_stream_from pf ff). Qed.
+Print Assumptions C08_series_on_new_decoder.
 
 Theorem C08_shell_parse_total : forall input,
   exists r, shell_parse input = Ok r /\ value_or_error r.
@@ -360,6 +397,16 @@ Example C08_unbalanced_example :
   unmarshal (fun _ => @None N) (fun _ => []) [123; 97; 58; 91; 49; 44; 50; 125]
   = Ok (UErr EExpectOp).
 Proof. vm_compute. split; reflexivity. Qed.
+
+(** One Decoder: a header value, then the series, then a Decode at the end of
+    the input (errors), after which nothing succeeds any more. *)
+Example C08_script_example :
+  script (fun _ => @None N) (fun _ => []) (fun _ => Some (fun _ => true))
+    [49; 10; 120; 32; 91; 50; 93; 10]                                   (* "1\nx [2]\n" *)
+    [OpMore; OpDecode; OpSeries; OpMore; OpDecode; OpSeries]
+  = Ok [RMore true; RDec (DOk [49]); RSer (Some [([120], [91; 50; 93])], []); RMore false;
+        RDec (DErrs [EExpectOperand]); RSer (None, [EExpectOperand])].
+Proof. vm_compute. reflexivity. Qed.
 
 (** Twenty-one entries that do not start with a type name: 20 errors kept. *)
 Fixpoint rep_list (n : nat) (l : list N) : list N :=
